@@ -82,6 +82,9 @@ def run_registry(acc, srv, key, target_pairs):
     A = rw.assets()
     regd = [d for d in rw.denoms if d in rw.reg]
     hot = rng.sample(regd, min(len(regd), rng.choice([2, 3])))     # denoms that will be re-registered
+    for d in regd:
+        if d in rw.tokens and d not in hot:
+            hot.append(d)    # a native denom spelled exactly like a live cw20 address
     step = 0
     updates = 0
     while step < target_pairs * 3 and (len(rw.model) < target_pairs or updates < 3):
